@@ -228,8 +228,43 @@ class Capture:
                     node._c01_auth.add(sp["canon"])
                 node._c01_rx.append((tuple(src), data))
             except BaseException:
-                pass
-            return _o(packet, *a, **kw)
+                sp = None
+            res = _o(packet, *a, **kw)
+            # forged datagrams INTERLEAVED into the live protocol run: right after an authentic datagram of an authenticated
+            # id was handled (pending requests, running transfers, caches of this node in place), the same datagram with one
+            # payload byte flipped (the last one before the signature) arrives from the same source; it must not enter a handler
+            inj = getattr(self, "inject", None)
+            try:
+                ik = (overlay_name, data[22], id(node)) if sp else None      # budget per message id and receiving node
+                if inj and sp and sp["authentic"] and (overlay_name, data[22]) in inj["required"] \
+                        and inj["seen"].get(ik, 0) < inj["per_id"] and not inj["busy"]:
+                    inj["seen"][ik] = inj["seen"].get(ik, 0) + 1
+                    j = len(data) - sp["n"] - 1
+                    if j >= 25 + len(sp["key_field"]):
+                        forged = data[:j] + bytes([data[j] ^ 0x01]) + data[j + 1:]
+                        obs = inj["obs"]
+                        inj["busy"] = True
+                        obs.events, obs.current, obs.active = [], forged, True
+                        try:
+                            _o((packet[0], bytes(bytearray(forged))))
+                        finally:
+                            obs.active = False
+                            inj["busy"] = False
+                        entered = [e for e in obs.events if e[0][0] in ("handler",)]
+                        inj["ctx"].count(f"interleaved:{'ENTERED' if entered else 'rejected'}")
+                        inj["ctx"].case(("interleaved", overlay_name, data[22]), True)
+                        if entered:
+                            inj["ctx"].oracle_fail(
+                                f"{entered[0][4]}:unauthentic-delivery",
+                                f"{overlay_name} msg {data[22]}: in a live protocol run the handler {entered[0][4]} was entered "
+                                f"for a forged copy (one payload byte flipped) of the datagram it had just processed",
+                                {"overlay": overlay_name, "then": "strategies", "scenario": "interleaved-forgery",
+                                 "history": [{"src": list(tuple(src)), "data": data.hex(), "verified_before": []},
+                                             {"src": list(tuple(src)), "data": forged.hex(), "verified_before": []}]})
+            except BaseException as e:
+                if inj:
+                    inj["ctx"].count(f"interleaved:error:{type(e).__name__}")
+            return res
         ov.on_packet = on_packet
         # the endpoint holds the bound method it was registered with: re-register the tapped one
         try:
@@ -359,6 +394,26 @@ async def sc_dht(cap, cls, curve):
                         pass
         for lk in lookups:
             await step(lk, 0.3)
+        # an unauthenticated peer HINT handed to an API entry point (what TunnelCommunity.on_extend does with the key and
+        # address named in an extend cell): connect_peer(mid, peer) pings the hint; the honest node at that address answers
+        # with its own key, the ping is never answered by the hinted key and times out; the hint must not become verified
+        if hasattr(c.overlay, "connect_peer"):
+            from ipv8.peer import Peer as _P
+            hk = rust().PrivateKey(b"LibNaCLSK:" + bytes(_random.randrange(256) for _ in range(64)))
+            hint = _P(bytes(hk.pub().key_to_bin()), _A4(*a.endpoint.wan_address))
+            fut = asyncio.ensure_future(c.overlay.connect_peer(hint.mid, peer=hint))
+            for _ in range(3):
+                await pump()
+                rc = c.overlay.request_cache
+                for ident, cache in list(getattr(rc, "_identifiers", {}).items()):
+                    if getattr(cache, "msg_type", None) in ("ping", "find"):
+                        try:
+                            rc.pop(cache.prefix, cache.number)
+                            cache.on_timeout()
+                        except BaseException:
+                            pass
+            await step(fut, 0.3)
+            cap.ctx.count("dht:hinted-connect-peer")
     except BaseException:
         pass
     await pump()
@@ -498,9 +553,11 @@ async def sc_tunnel_circuit(cap, cls, curve):
     return nodes
 
 
-async def capture_all(ctx: Ctx, tables, rounds: int, only: str | None = None):
+async def capture_all(ctx: Ctx, tables, rounds: int, only: str | None = None, inject: dict | None = None):
     cap = Capture()
     cap.ctx = ctx
+    if inject is not None:
+        cap.inject = inject
     by_name = {t["overlay"]: t["cls"] for t in tables}
     curves = ["curve25519", "very-low", "low", "medium", "high"]
     for rnd in range(rounds):
@@ -1066,6 +1123,23 @@ async def history_phase(ctx: Ctx, drv, steps, tbn):
         ctx.count("history:setup-mismatch")
         return
     lines, impl = ["hist-reset"], [None]
+    signed_for = {name: set() for name in overlays}     # keys that signed a datagram carrying THAT overlay's prefix
+    delivered = []
+
+    def membership_oracle(label):
+        # an overlay counts a key among its peers (get_peers(): services_per_peer) only if that key signed for that overlay
+        for name, ov in overlays.items():
+            for p_ in ov.get_peers():
+                k_ = bytes(p_.public_key.key_to_bin())
+                if k_ not in signed_for[name]:
+                    ctx.oracle_fail(f"{name}:overlay-membership-unauthenticated",
+                                    f"{name}.get_peers() contains {k_.hex()[:24]}… although that key never signed a datagram "
+                                    f"carrying {name}'s prefix (two overlays sharing one Network; after step `{label}`)",
+                                    {"overlay": name, "then": "strategies", "scenario": "history",
+                                     "history": [{"overlay": o_, "src": list(s_), "data": d_.hex(), "verified_before": []}
+                                                 for o_, s_, d_ in delivered[-12:]]})
+                    return False
+        return True
     for c in steps:
         data, tgt = c["data"], c["target"]
         h = handler_for(tbn[tgt], data)
@@ -1080,6 +1154,11 @@ async def history_phase(ctx: Ctx, drv, steps, tbn):
         except BaseException:
             pass
         await asyncio.sleep(0)
+        sp_ = spec_eval(data)
+        if sp_["authentic"] and data[:22] == tbn[tgt]["prefix"]:
+            signed_for[tgt].add(sp_["canon"])
+        delivered.append((tgt, tuple(c["src"]), data))
+        membership_oracle(c["cls"])
         net = node.overlay.network
         keys = {bytes(k) for k in net.verified_by_public_key_bin} | {bytes(p.public_key.key_to_bin()) for p in net.verified_peers}
         impl.append("verified " + " ".join(sorted(k.hex() for k in keys)))
@@ -1099,6 +1178,31 @@ async def history_phase(ctx: Ctx, drv, steps, tbn):
                                       for s_ in steps[:i]]})
             break
     ctx.count("history:final-keys", len(impl[-1].split(" ")) - 1 if impl[-1] else 0)
+    # a member M of ONE overlay (its own key, authentic datagram) names the ADDRESS of a key that is verified through the
+    # OTHER overlay in an introduction-response: that key must not thereby become a peer of M's overlay
+    try:
+        from ipv8.peer import Peer as _P
+        net = node.overlay.network
+        victims = [p_ for p_ in node.overlay.get_peers() if bytes(p_.public_key.key_to_bin()) not in signed_for["PexCommunity"]]
+        if victims:
+            v_ = victims[0]
+            m_node = gen_c01.make_node(tbn["PexCommunity"]["cls"])
+            me = node.endpoint.wan_address
+            for new_style in (False, True):
+                pkt = m_node.overlay.create_introduction_response(me, me, 77, introduction=_P(v_.public_key, v_.address),
+                                                                  new_style=new_style)
+                pex.on_packet((m_node.endpoint.wan_address, bytes(bytearray(pkt))))
+                await asyncio.sleep(0)
+                signed_for["PexCommunity"].add(bytes(m_node.my_peer.public_key.key_to_bin()))
+                delivered.append(("PexCommunity", tuple(m_node.endpoint.wan_address), bytes(pkt)))
+                ok_ = membership_oracle("introduction-response naming the address of a key verified via the other overlay")
+                ctx.count(f"history:cross-overlay-introduction:{'clean' if ok_ else 'VOUCHED'}")
+                ctx.case(("history", "cross-overlay-introduction", new_style), True)
+            await m_node.stop()
+        else:
+            ctx.count("history:cross-overlay-introduction:no-victim")
+    except BaseException as e:
+        ctx.count(f"history:cross-overlay-introduction:error:{type(e).__name__}")
     try:
         await pex.unload()
         await node.stop()
@@ -1180,8 +1284,16 @@ async def run_async(ctx: Ctx, use_model: bool, scale: dict):
     tbn = {t["overlay"]: t for t in tables}
     r = rust()
 
+    # the observer runs from the start: forged datagrams are also interleaved into the protocol runs of the capture phase
+    obs = Observer()
+    recv = Receivers(tables, obs)
+    for t_ in tables:
+        recv.register_targets(None, t_)
+    obs.start()
+    inject = {"obs": obs, "ctx": ctx, "required": required, "seen": {}, "per_id": scale.get("interleave_per_id", 2),
+              "busy": False}
     # ---- capture ---------------------------------------------------------------------------------------------
-    packets = await capture_all(ctx, tables, scale["capture_rounds"])
+    packets = await capture_all(ctx, tables, scale["capture_rounds"], inject=inject)
     have = {(p["overlay"], p["data"][22]) for p in packets if len(p["data"]) > 22}
     if required - have:          # a scenario step timed out on a loaded machine: try once more before giving up
         ctx.count("capture:retry")
@@ -1222,8 +1334,6 @@ async def run_async(ctx: Ctx, use_model: bool, scale: dict):
     for lvl in ("curve25519", "very-low", "low", "medium", "high"):
         other_keys[lvl] = fresh_key(ctx, lvl)
     # the receivers exist before the mutants are made: some mutants name the receiver's own key
-    obs = Observer()
-    recv = Receivers(tables, obs)
     other_keys["__receiver__"] = {name: bytes(recv.get(name).my_peer.public_key.key_to_bin()) for name in tbn}
 
     # ---- mutants ---------------------------------------------------------------------------------------------
@@ -1663,7 +1773,8 @@ async def run_async(ctx: Ctx, use_model: bool, scale: dict):
     if drv:
         zero = [b_ for b_ in REQUIRED_BRANCHES if not ctx.counts.get("branch:" + b_)]
         zero += [k for k in ("history:step:authentic", "history:step:forged", "history:step:authentic-new-key-other-overlay",
-                             "primitive:slice", "primitive:varlen") if not ctx.counts.get(k)]
+                             "primitive:slice", "primitive:varlen", "interleaved:rejected", "dht:hinted-connect-peer",
+                             "history:cross-overlay-introduction:clean", "tunnel-circuit:built") if not ctx.counts.get(k)]
         ctx.extra["model_branches_required"] = len(REQUIRED_BRANCHES)
         ctx.extra["model_branches_not_reached"] = zero
         if zero and not ctx.failures and not ctx.disagreements and not ctx.broken and not ctx.searching:
@@ -1791,12 +1902,30 @@ async def replay_history(ctx: Ctx, r: dict):
 async def replay(ctx: Ctx, rec: dict):
     logging.disable(logging.CRITICAL)
     r = rec.get("replay", rec)
+    if r.get("then") == "strategies" and r.get("scenario") == "history":
+        # found in the history phase (two overlays sharing one Network): that phase needs the captured datagrams, so the
+        # whole quick run is repeated and its oracle failures are counted
+        before = len(ctx.failures)
+        await run_async(ctx, ctx.model_ok, SCALES["quick"])
+        bad = len([f for f in ctx.failures[before:] if f["signature"].endswith("overlay-membership-unauthenticated")])
+        print(f"replay: history phase re-run; overlay-membership failures: {bad}; property {'FAILS' if bad else 'holds'}")
+        return None
     if r.get("then") == "strategies" and r.get("scenario"):
         # found inside a protocol run (pending requests, routing tables in place): re-run that overlay's scenarios
         _random.seed(0)
         tables = _INFO.get("tables") or gen_c01.collect_tables()
         before = len(ctx.failures)
-        await capture_all(ctx, tables, 1, only=r["overlay"])
+        obs_ = Observer()
+        rc_ = Receivers(tables, obs_)
+        for t_ in tables:
+            rc_.register_targets(None, t_)
+        obs_.start()
+        try:
+            await capture_all(ctx, tables, 1, only=r["overlay"],
+                              inject={"obs": obs_, "ctx": ctx, "required": auth_required_set(_INFO.get("spec") or gen_c01.load_spec()),
+                                      "seen": {}, "per_id": 2, "busy": False})
+        finally:
+            obs_.stop()
         bad = len(ctx.failures) - before
         print(f"replay: protocol scenarios of {r['overlay']} re-run (protocol-run oracles, maintenance strategies); oracle "
               f"failures: {bad}; property {'FAILS' if bad else 'holds'}")
